@@ -44,7 +44,8 @@ Proof. exact edits_frame. Qed.
 Print Assumptions C01_edits_frame.
 
 (* when no block accepts an added import: the output is the prologue (maximal leading run of
-   comment / blank statements and at most one string-literal statement - the docstring), a line
+   comment / blank statements and at most one str-literal statement - the docstring; never a bytes
+   literal statement), a line
    terminator if - and only possibly if - the prologue is not empty and does not end with a newline
    (the file ends in the middle of its last prologue line), the new block, one blank line, and the
    rest of the input framed as before *)
@@ -104,4 +105,11 @@ Example C01_nonvacuous_insert_second_string :
   | Some ps => option_map (pretty ex_R) (insert_new_import_block 0%N (preprocess (fun _ : list unit => 0%N) ps))
   | None => None
   end = Some (dec "'d'$a;IMPORTS$a;$a;'second'$a;y = 2$a;"%string).
+Proof. vm_compute. reflexivity. Qed.
+Example C01_nonvacuous_insert_bytes_first :
+  match statements [mkNode (mkPos 2 1) 2 (@KBytesExpr unit); mkNode (mkPos 3 1) 3 KStrExpr]
+                   (of_str (dec "# c$a;b'x'$a;'d'$a;"%string) (mkPos 1 1)) with
+  | Some ps => option_map (pretty ex_R) (insert_new_import_block 0%N (preprocess (fun _ : list unit => 0%N) ps))
+  | None => None
+  end = Some (dec "# c$a;IMPORTS$a;$a;b'x'$a;'d'$a;"%string).
 Proof. vm_compute. reflexivity. Qed.
